@@ -68,3 +68,23 @@ claim("C18",
       "the Lean predicate C18.holds on the implementation's script texts (prescribed tail present, nothing tail-like earlier). Survival/discard in "
       "the linked image is GNU ld's first-match rule, exercised by ld-lab only (partial).",
       "Lean 4 proof over the writer model + differential correspondence + text predicate on implementation outputs", "DESIGN.md §8 C18")
+
+claim("C15",
+      "Lean theorems (Props/C15.lean): the sort key (position, name) of sections_to_emit_here is a total order (strLt trichotomy/asymmetry/"
+      "transitivity), sortBy_perm and sectionsToEmitHere_perm show that the sections a file contributes to a group do not depend on the order in "
+      "which its section_order map is visited, emitEntry_perm lifts this through the recursive emitter for every nesting of groups (the model "
+      "has no other iteration over a hash-based field: all others are only looked up); optsOfList_perm / generate_option_order: distinct options "
+      "in any order build the same map, hence the same outputs. The lift of emitEntry_perm to whole documents is a congruence not yet proved. "
+      "Tie to the code and the run-time part a theorem cannot exhibit: every case is generated 3x in one process, once in each of two fresh "
+      "processes (fresh hash seeds) and with the options in two other orders; all outputs must be byte-identical.",
+      "Lean 4 proof of order independence (total order + permutation) + multi-process re-generation", "DESIGN.md §8 C15")
+claim("C16",
+      "Lean theorems (Props/C16.lean): the acceptance of a file entry is proved equal, for every nesting depth, to the declarative "
+      "required/optional/forbidden table of kind x field (file_ok, files_ok, pathKind_ok), likewise condition lists, gp_info, vram classes "
+      "(exactly one placement), symbol assignments, required symbols, asserts; unknown_key_rejected for all nine record levels. The same "
+      "declarative predicate validDoc (also covering segments, settings and the document record, whose equivalence proofs are not finished — "
+      "accept_iff_valid_statement) is the run-time oracle: implementation accept/reject is compared with it on the presence lattices in full "
+      "(4608 file entries, 2^4 address subsets, 2^3 class placements, unknown key x 9 levels, every field x {absent,null,value}, empty condition "
+      "lists x 6 record kinds) and on mutated random documents. The bytes -> value tree step is serde_yaml's (not modelled).",
+      "Lean 4 proof of accept = declarative table (records proved: files, conditions, gp_info, classes, top-level entries) + exhaustive lattices against the oracle",
+      "DESIGN.md §8 C16")
